@@ -82,8 +82,9 @@ def gen_cases(tier, seed):
                 cases.append({"id": "%s-%s-%s" % (site, pos, mode), "sig": [site, "-", pos, mode], "site": site, "pos": pos, "mode": mode, "kind": "sign", "msg": "-"})
         for u in UNSTARTABLE:
             cases.append({"id": "%s-%s" % (site, u), "sig": [site, "-", "all", u], "site": site, "pos": "all", "mode": u, "kind": "sign", "msg": "-"})
-    for site in ("encrypt-assertion", "encrypt-signed-assertion"):
-        for pos in ("1", "all"):
+    for site in ("encrypt-assertion", "encrypt-signed-assertion", "encrypt-assertion:peer-lists-same-certificate-twice", "encrypt-assertion:peer-has-two-roles-with-one-certificate",
+                 "encrypt-assertion:peer-lists-two-certificates"):
+        for pos in ("1", "all") + (("2",) if ":" in site else ()):
             for mode in NORESULT_MODES + DAMAGE_MODES:
                 cases.append({"id": "%s-%s-%s" % (site, pos, mode), "sig": [site, "-", pos, mode], "site": site, "pos": pos, "mode": mode, "kind": "encrypt", "msg": "-"})
         for u in UNSTARTABLE:
@@ -304,6 +305,20 @@ def run_case(case, ctx):
 
     if kind == "encrypt":
         sp, idp = _entities(ctx, (1, 0, 0, 0), tool)
+        if ":" in site:
+            # how the peer publishes its encryption certificate(s): the loop over them is where a fault may be lost
+            from vlib import mdgen
+            POST = "urn:oasis:names:tc:SAML:2.0:bindings:HTTP-POST"
+            REDIR = "urn:oasis:names:tc:SAML:2.0:bindings:HTTP-Redirect"
+            lay = site.split(":", 1)[1]
+            d = {"eid": fed.SP_EID, "sp": {"keys": [("signing", 1), ("encryption", 2)], "acs": [(POST, fed.ACS_POST, 1, True)]}}
+            if lay == "peer-lists-same-certificate-twice":
+                d["sp"]["keys"].append(("encryption", 2))
+            elif lay == "peer-has-two-roles-with-one-certificate":
+                d["idp"] = {"keys": [("signing", 1), ("encryption", 2)], "sso": [(REDIR, "https://sp.example.org/proxy/sso")]}
+            else:
+                d["sp"]["keys"].append(("encryption", 10))
+            idp = ctx.fedcache.get("idp-for", [lay, tool or ""], lambda: fed.make_idp(fed.idp_conf(xmlsec=tool), [mdgen.entity(d)]))
         with Fault(ctx, case):
             try:
                 out = fed.issue(idp, ident, sign_response=False, sign_assertion=(site == "encrypt-signed-assertion"), encrypt_assertion=True)
